@@ -42,7 +42,7 @@ class DataSetReadMapper:
         self.index_fname = self.create_index(args)
 
     def choose_aligner(self):
-        return self.args.aligner or DATATYPE_TO_ALIGNER[self.args.data_type]
+        return selected_aligner(self.args)
 
     def create_index(self, args):
         if args.index and os.path.exists(args.index):
@@ -85,6 +85,18 @@ def get_aligner(aligner):
     return path
 
 
+def selected_aligner(args):
+    return args.aligner or DATATYPE_TO_ALIGNER[args.data_type]
+
+
+def alignment_options_str(args):
+    # options that change the alignments of the same reads to the same index
+    aligner = selected_aligner(args)
+    if aligner == "minimap2":
+        return "_%s_%s%s" % (aligner, MINIMAP_PRESET[args.data_type], "_uf" if args.stranded == 'forward' else "")
+    return "_" + aligner
+
+
 def find_stored_index(args):
     reference_filename = os.path.abspath(args.reference)
 
@@ -98,9 +110,11 @@ def find_stored_index(args):
     index_mtime = converted_indexes.get(reference_filename, {}).get('index_mtime')
     reference_mtime = converted_indexes.get(reference_filename, {}).get('reference_mtime')
     kmer_size = converted_indexes.get(reference_filename, {}).get('kmer_size')
+    aligner = converted_indexes.get(reference_filename, {}).get('aligner')
     if os.path.exists(reference_filename) and os.path.getmtime(reference_filename) == reference_mtime:
         if os.path.exists(index_filename) and os.path.getmtime(index_filename) == index_mtime:
-            if KMER_SIZE[args.data_type] == kmer_size:
+            # an index made by one aligner is of no use to the other
+            if KMER_SIZE[args.data_type] == kmer_size and aligner == selected_aligner(args):
                 logger.info('Index file found. Using {}'.format(index_filename))
                 return index_filename
     return None
@@ -116,7 +130,8 @@ def store_index(index, args):
         'index_filename': index,
         'reference_mtime': os.path.getmtime(reference_filename),
         'index_mtime': os.path.getmtime(index),
-        'kmer_size': KMER_SIZE[args.data_type]
+        'kmer_size': KMER_SIZE[args.data_type],
+        'aligner': selected_aligner(args)
     }
     dump_json_atomically(converted_indexes, args.index_config_path)
     logger.debug('New index saved to {}'.format(index))
@@ -162,7 +177,7 @@ def find_stored_alignment(fastq_file, annotation, args):
     ann_path = os.path.abspath(annotation) if annotation else ""
     ann_str = "_" + ann_path if ann_path else ""
 
-    key = "%s_aligned_to_%s%s" % (fastq, index, ann_str)
+    key = "%s_aligned_to_%s%s%s" % (fastq, index, ann_str, alignment_options_str(args))
     with open(args.alignment_config_path, 'r') as f_in:
         aligned_fastq_files = json.load(f_in)
 
@@ -193,7 +208,7 @@ def store_alignment(bam_file, fastq_file, annotation, args):
     index = os.path.abspath(args.index)
     ann_path = os.path.abspath(annotation) if annotation else ""
 
-    key = "%s_aligned_to_%s%s" % (fastq, index, "_" + ann_path if ann_path else "")
+    key = "%s_aligned_to_%s%s%s" % (fastq, index, "_" + ann_path if ann_path else "", alignment_options_str(args))
     bam_file = os.path.abspath(bam_file)
 
     with open(args.alignment_config_path, 'r') as f_in:
